@@ -335,6 +335,17 @@ theorem All2.get {α β : Type} {R : α → β → Prop} {xs : List α} {ys : Li
     | zero => simp at hx; subst hx; exact ⟨_, by simp, h1⟩
     | succ i => simp at hx; simpa using ih i hx
 
+theorem All2.right {α β : Type} {R : α → β → Prop} {xs : List α} {ys : List β} (h : All2 R xs ys) :
+    ∀ y ∈ ys, ∃ x, x ∈ xs ∧ R x y := by
+  induction h with
+  | nil => intro y hy; cases hy
+  | cons h1 _ ih =>
+    intro y hy
+    rcases List.mem_cons.mp hy with rfl | hy
+    · exact ⟨_, by simp, h1⟩
+    · obtain ⟨x, hx, hr⟩ := ih y hy
+      exact ⟨x, by simp [hx], hr⟩
+
 theorem All2.length_eq {α β : Type} {R : α → β → Prop} {xs : List α} {ys : List β} (h : All2 R xs ys) :
     xs.length = ys.length := by
   induction h with
@@ -691,19 +702,68 @@ theorem pairs_inh (P : List (Attr × Eff)) : (P.map (·.2)).filter (fun e => e.k
     (P.filter (fun p => p.2.kind != .none)).map (·.2) := by
   rw [List.filter_map]; rfl
 
-/-- the `__prepare__` loop over the bases' values registers the plain functions -/
-theorem plainFold (pre : Nat) (f : TState → Attr → TState)
-    (hf : ∀ st v, f st v = match plainOf v with | some d => st.emit (.register pre d) | none => st) :
-    ∀ (vs : List Attr) (st : TState), vs.foldl f st = regAll st pre (vs.filterMap plainOf) := by
+/-! ## the `__prepare__` loop over the bases' values: every plain function becomes a fresh function of its own -/
+
+/-- one value of the loop: the state and the functions created so far -/
+def plainStep (acc : TState × List Nat) (v : Attr) : TState × List Nat :=
+  match v with
+  | .plain d => ((acc.1.create []).1.emit (.register acc.1.nn d), acc.2 ++ [acc.1.nn])
+  | _ => acc
+
+def plainMk (st : TState) (values : List Attr) : TState × List Nat := values.foldl plainStep (st, [])
+
+/-- `m` is a function created at or after `lo` that holds exactly the definition `d` -/
+def LeafRel (a' : AG) (lo : Nat) (d : Def) (m : Nat) : Prop := lo ≤ m ∧ m < a'.len ∧ LeafAt a' m d
+
+theorem plainLoop_spec : ∀ (vs : List Attr) (st : TState) (a : AG) (acc : List Nat), Snap st a →
+    ∃ a' ns, Snap (vs.foldl plainStep (st, acc)).1 a' ∧ (vs.foldl plainStep (st, acc)).2 = acc ++ ns ∧
+      a.len ≤ a'.len ∧ (∀ k, k < a.len → a'.mx k = a.mx k ∧ a'.ow k = a.ow k) ∧
+      All2 (LeafRel a' a.len) (vs.filterMap plainOf) ns ∧
+      (vs.foldl plainStep (st, acc)).1.attr = st.attr ∧ (vs.foldl plainStep (st, acc)).1.hasF = st.hasF := by
   intro vs
   induction vs with
-  | nil => intro st; rfl
+  | nil =>
+    intro st a acc h
+    exact ⟨a, [], h, by simp, Nat.le_refl _, fun _ _ => ⟨rfl, rfl⟩, All2.nil, rfl, rfl⟩
   | cons v vs ih =>
-    intro st
-    rw [List.foldl_cons, ih, hf]
-    cases hv : plainOf v with
-    | none => simp [hv]
-    | some d => simp [hv, regAll]
+    intro st a acc h
+    cases v with
+    | none => exact ih st a acc h
+    | node m fl => exact ih st a acc h
+    | plain d =>
+      have hlen := h.len
+      have h1 := (h.create [] (fun m hm => nomatch hm)).register a.len d (Nat.lt_succ_self _)
+      have hst : (Attr.plain d :: vs).foldl plainStep (st, acc) =
+          vs.foldl plainStep ((st.create []).1.emit (.register a.len d), acc ++ [a.len]) := by
+        rw [hlen]; rfl
+      rw [hst]
+      obtain ⟨a', ns, s1, s2, s3, s4, s5, s6, s7⟩ := ih _ _ (acc ++ [a.len]) h1
+      have hl2 : ((a.step (.create [] false)).step (.register a.len d)).len = a.len + 1 := rfl
+      rw [hl2] at s3 s4 s5
+      refine ⟨a', a.len :: ns, s1, by rw [s2]; simp, by omega, fun k hk => ?_,
+        All2.cons ⟨Nat.le_refl _, by omega, ?_, ?_⟩ (s5.imp (fun _ _ hr => ⟨by have := hr.1; omega, hr.2⟩)), s6, s7⟩
+      · obtain ⟨t1, t2⟩ := s4 k (by omega)
+        refine ⟨t1.trans ?_, t2.trans ?_⟩
+        · show upd a.mx a.len [] k = _
+          rw [upd_ne _ _ _ _ (by omega)]
+        · show upd a.ow a.len _ k = _
+          rw [upd_ne _ _ _ _ (by omega)]
+      · rw [(s4 a.len (by omega)).1]
+        show upd a.mx a.len [] a.len = _
+        rw [upd_same]
+      · rw [(s4 a.len (by omega)).2]
+        show upd a.ow a.len (setDefn ((a.ow a.len).length + 1) (a.ow a.len) d 0) a.len = _
+        rw [upd_same, h.closed.2 a.len (Nat.le_refl _)]; rfl
+
+theorem plainMk_spec (st : TState) (a : AG) (values : List Attr) (h : Snap st a) :
+    ∃ a', Snap (plainMk st values).1 a' ∧ a.len ≤ a'.len ∧
+      (∀ k, k < a.len → a'.mx k = a.mx k ∧ a'.ow k = a.ow k) ∧
+      All2 (LeafRel a' a.len) (values.filterMap plainOf) (plainMk st values).2 ∧
+      (plainMk st values).1.attr = st.attr ∧ (plainMk st values).1.hasF = st.hasF := by
+  obtain ⟨a', ns, s1, s2, s3, s4, s5, s6, s7⟩ := plainLoop_spec values st a [] h
+  refine ⟨a', s1, s3, s4, ?_, s6, s7⟩
+  show All2 _ _ (values.foldl plainStep (st, [])).2
+  rw [s2]; exact s5
 
 end ClassBody
 
